@@ -109,6 +109,8 @@ Definition is_hex_b (c : Z) : bool := match hexval c with Some _ => true | None 
 Definition hex36_b (s : str) : bool :=
   forallb is_hex_b s && ((len s =? 3) || (len s =? 6)).
 
+Definition hex6_b (s : str) : bool := (len s =? 6) && forallb is_hex_b s.
+
 (* min(int(current.lstrip("0")[:5] or 0), 9999) for a string of ASCII digits *)
 Definition csi_number (current : str) : Z :=
   Z.min (int10 (firstn 5 (lstrip_by (fun c => c =? 48) current))) 9999.
